@@ -177,23 +177,66 @@ def printed(out_path, tag):
                     yield body
 
 
-def maximal_schedules(out_path, tag="E"):
+class Graph:
+    """The explored state graph, rebuilt from the printed edges: every edge line carries its whole history and the
+    target state as a string; the source of an edge is the target of the edge that printed its history."""
+    def __init__(self):
+        self.adj = {}        # state id -> [(element text, target state id)]
+        self.inits = []      # [(schedule text of the set-up calls, state id)]
+        self.edges = []      # [(schedule inner text, target state id)] one per printed edge
+
+    def walks(self, n, rng, extra=8, from_init=40):
+        """n schedules: alternately a random walk from an initial state (up to from_init steps) and the history of a
+        random printed edge continued by `extra` random steps.  Every walk is a behaviour of the model."""
+        out = []
+        if not self.edges:
+            return out
+        for i in range(n):
+            if i % 2 == 0 and self.inits:
+                inner, cur = rng.choice(self.inits)
+                steps = from_init
+            else:
+                inner, cur = rng.choice(self.edges)
+                steps = extra
+            for _ in range(steps):
+                outs = self.adj.get(cur)
+                if not outs:
+                    break
+                el, cur = rng.choice(outs)
+                inner = inner + "," + el if inner else el
+            out.append('{"hist":[' + inner + ']}')
+        return out
+
+
+def maximal_schedules(out_path, tag="E", graph=None):
     """All printed transitions of a TLC run -> (number printed, maximal schedules, parent map).
 
     Every printed edge is a whole schedule (the first path TLC found to the edge's source state plus the
     edge), and the printed set is prefix-closed, so a schedule that is a proper prefix of another printed
-    schedule is replayed anyway when the longer one is: only the maximal ones need to be executed."""
-    lines = list(printed(out_path, tag))
-    total = len(lines)
+    schedule is replayed anyway when the longer one is: only the maximal ones need to be executed.
+    graph: a Graph to be filled from the "to" field of the edge lines (the target state as a string)."""
+    raw = list(printed(out_path, tag))
+    total = len(raw)
     parent = {}
-    if not lines:
+    if not raw:
         return 0, [], parent
+    lines, targets = [], []
+    for l in raw:
+        i = l.rfind('],"to":"')
+        if i >= 0:
+            lines.append(l[:i + 1] + "}")
+            targets.append(l[i + 8:-2])
+        else:
+            lines.append(l)
+            targets.append(None)
+    del raw
     # raw-text keys: ToJson is deterministic, so the parent schedule's line is this line minus its last
     # element; elements are recognised by their first two field names (no nested record starts with both)
     m0 = re.match(r'\{"hist":\[\{"([A-Za-z]+)":[^,{\[]*,"([A-Za-z]+)":', lines[0])
     if not m0:
         raise ToolError("cannot recognise the schedule elements of %s" % out_path)
     marker = re.compile(r'\{"%s":[^,{\[]*,"%s":' % (m0.group(1), m0.group(2)))
+    last_el = {}
     for l in lines:
         i = -1
         for mm in marker.finditer(l):
@@ -201,7 +244,24 @@ def maximal_schedules(out_path, tag="E"):
         if i < 0:
             raise ToolError("schedule line without elements in %s" % out_path)
         parent[l] = (l[:i - 1] if l[i - 1] == "," else l[:i]) + "]}"
+        if graph is not None:
+            last_el[l] = l[i:-2]
     inner = set(parent.values())
+    if graph is not None and targets[0] is not None:
+        ids = {}
+        state_of = {}
+        for l, t in zip(lines, targets):
+            state_of[l] = ids.setdefault(t, len(ids))
+        for l in lines:
+            par = parent[l]
+            if par in state_of:
+                src = state_of[par]
+            else:                       # the history is the set-up of an initial state
+                src = ids.setdefault("init:" + par, len(ids))
+                if src not in graph.adj:
+                    graph.inits.append((par[len('{"hist":['):-2], src))
+            graph.adj.setdefault(src, []).append((last_el[l], state_of[l]))
+            graph.edges.append((l[len('{"hist":['):-2], state_of[l]))
     return total, [l for l in lines if l not in inner], parent
 
 
